@@ -1,4 +1,4 @@
-/-! Scratch (design phase): C17 — verify.py `_incompat` versus "every admitted call shape binds". -/
+/-! C17 model (core Lean only): verify.py `_incompat`, `_verify_element`, `_verify` versus "every admitted call shape binds". -/
 namespace ZI.Verify
 /-- a signature as `getSignatureInfo` reports it -/
 structure Sig where
@@ -81,7 +81,60 @@ theorem incompat_iff (iface impl : Sig) :
             · simp [h'] at hnv
           · rfl
 
-#print axioms incompat_iff
 example : incompat ⟨1, 1, false, false⟩ ⟨0, 3, false, true⟩ = none := by decide
 example : (incompat ⟨0, 0, true, false⟩ ⟨0, 2, false, false⟩).isSome = true := by decide   -- *args needs *args
+
+/-! ### `_verify_element` and `_verify` -/
+/-- a member of `iface.namesAndDescriptions(all=True)` -/
+inductive Desc | attr | method (sig : Sig)
+deriving Repr, DecidableEq
+
+/-- what `getattr(candidate, name)` turns out to be -/
+inductive Cand
+  | missing                 -- AttributeError
+  | func (sig : Sig)        -- a Python function or bound method; `sig` is what fromFunction/fromMethod report (self stripped)
+  | opaqueCallable          -- builtin / method descriptor / any other callable: cannot be introspected
+  | nonCallable
+  | propertyObj             -- a `property` object (what a class attribute lookup gives)
+deriving Repr, DecidableEq
+
+structure Elem where
+  name : Nat
+  desc : Desc
+  cand : Cand
+deriving Repr, DecidableEq
+
+inductive Failure
+  | doesNotImplement
+  | brokenImplementation (name : Nat)
+  | brokenMethod (name : Nat) (msg : String)
+deriving Repr, DecidableEq
+
+/-- `_verify_element`; `none` = no exception. `cls` = class verification (`vtype == 'c'`) -/
+def verifyElement (cls : Bool) (e : Elem) : Option Failure :=
+  match e.cand, e.desc with
+  | .missing, .attr => if cls then none else some (.brokenImplementation e.name)
+  | .missing, .method _ => some (.brokenImplementation e.name)
+  | _, .attr => none
+  | .func impl, .method want => (incompat want impl).map (.brokenMethod e.name)
+  | .opaqueCallable, .method _ => none
+  | .propertyObj, .method _ => if cls then none else some (.brokenMethod e.name "implementation is not a method")
+  | .nonCallable, .method _ => some (.brokenMethod e.name "implementation is not a method")
+
+inductive Result
+  | ok
+  | single (f : Failure)
+  | multiple (fs : List Failure)
+deriving Repr, DecidableEq
+
+/-- every individual failure, in the order `_verify` meets them -/
+def failures (cls tentative declared : Bool) (elems : List Elem) : List Failure :=
+  (if !tentative && !declared then [Failure.doesNotImplement] else []) ++ elems.filterMap (verifyElement cls)
+
+/-- `_verify` -/
+def verify (cls tentative declared : Bool) (elems : List Elem) : Result :=
+  match failures cls tentative declared elems with
+  | [] => .ok
+  | [f] => .single f
+  | fs => .multiple fs
 end ZI.Verify
